@@ -85,6 +85,18 @@ def int32 (x : Nat) : Int :=
 /-- references/attributes of the framework package (package id 0x01, bits 24..31) get `android:` -/
 def isFramework (d : Nat) : Prop := d / 2 ^ 24 = 1
 
+/-- IEEE-754 binary32 (`TYPE_FLOAT`): sign bit 31, biased exponent bits 23..30, fraction bits 0..22.
+    Finite values as (negative, numerator, denominator): subnormals f·2^-149, normals
+    (1.f)·2^(e-127) = (2^23 + f)·2^(e-150); `none` for infinities and NaNs (e = 255). -/
+def binary32 (d : Nat) : Option (Bool × Nat × Nat) :=
+  let s : Bool := decide (d / 2 ^ 31 % 2 = 1)
+  let e := d / 2 ^ 23 % 256
+  let f := d % 2 ^ 23
+  if e = 255 then none
+  else if e = 0 then some (s, f, 2 ^ 149)
+  else if 150 ≤ e then some (s, (2 ^ 23 + f) * 2 ^ (e - 150), 1)
+  else some (s, 2 ^ 23 + f, 2 ^ (150 - e))
+
 /-- a dyadic rational `n / 2^k` that binary64 holds exactly (53-bit significand, normal range) -/
 def Binary64Exact (n k : Nat) : Prop := n < 2 ^ 53 ∧ k ≤ 1022
 
